@@ -73,6 +73,11 @@ LineZZ(r) ==
     [] r.op = "zzRedCrandMont" -> IsN(r.c, zzRedCrandMont(N(r.a), N(r.mod), r.W, r.n))
     [] r.op = "zzPowerMod" -> IsN(r.c, zzPowerMod(N(r.a), N(r.b), N(r.mod)))
     [] r.op = "zzPowerModW" -> IsN(r.ret, zzPowerModW(N(r.a), N(r.b), N(r.mod)))
+    [] r.op = "mont2Unity" -> IsN(r.c, zmMont2R(r.l, N(r.mod)))
+    [] r.op = "mont2Mul" -> IsN(r.c, zmMont2Mul(N(r.a), N(r.b), r.l, N(r.mod)))
+    [] r.op = "mont2Sqr" -> IsN(r.c, zmMont2Mul(N(r.a), N(r.a), r.l, N(r.mod)))
+    [] r.op = "mont2Inv" -> IsN(r.c, zmMont2Inv(N(r.a), r.l, N(r.mod)))
+    [] r.op = "mont2Div" -> IsN(r.c, zmMont2Div(N(r.dv), N(r.a), r.l, N(r.mod)))
     [] r.op = "zzRandMod" -> zzRandModOk(r.ret, N(r.c), N(r.mod), FALSE, r.tape) /\ zzRandUsedOk(r.used, N(r.mod))
     [] r.op = "zzRandNZMod" -> zzRandModOk(r.ret, N(r.c), N(r.mod), TRUE, r.tape) /\ zzRandUsedOk(r.used, N(r.mod))
     [] OTHER -> FALSE
